@@ -7,7 +7,7 @@ ASSUMPTIONS = ["start times are HH:MM strings; day sets are sets of Days"]
 RULE = ("for each zone: a base week (7 consecutive local days, one of them within a day of a DST transition when the zone has one) x "
         "all 128 day sets (quick: 40 sampled + the 8 canonical ones) x local times {start-1 min, start, start+1 min, 00:00, 00:01, "
         "12:00, 23:59} x several start times (some spelled without leading zeros), plus the last day of several months and the day after, so that local and UTC weekday differ for part of the grid; the same grid with one "
-        "set object consulted at two instants; non-trivial = distinct cases "
+        "set object consulted at two instants; calls made a few microseconds before a local midnight on a running clock; non-trivial = distinct cases "
         "with a non-empty day set")
 REQUIREMENT = ("text = 'Due today' if today is selected and the start is still ahead, 'Due tomorrow' if the earliest future occurrence "
                "is the next calendar day, else 'Due next <weekday>' of the nearest selected weekday (a week ahead when only today is "
@@ -73,11 +73,33 @@ def run_zone(out, stream, zone, cases):
                      classify=lambda c, i: zone + "/" + " ".join(i.split(" ")[1:3]))
 
 
+def run_ticking(out, rnd, zone, n):
+    """a running clock that passes local midnight during the call: the answer is the one for the last instant of the old day or the one
+    for the first instant of the new day - never a mixture (yesterday's weekday with today's time of day)"""
+    tz = zoneinfo.ZoneInfo(zone); cases = []
+    for _ in range(n):
+        day = D.date(2026, rnd.randrange(1, 13), rnd.randrange(1, 28))
+        mid = int(D.datetime(day.year, day.month, day.day, 0, 0, tzinfo=tz).timestamp())
+        m = rnd.randrange(1, 128); s_ = rnd.choice([0, 1, 12 * 60, 23 * 60 + 59, rnd.randrange(1440)])
+        cases.append({"zone": zone, "now": mid - rnd.choice([2, 5, 10, 20, 40, 80, 150]) * 1e-6, "midnight": mid, "start": "%02d:%02d" % divmod(s_, 60),
+                      "days": [d for d in range(7) if m >> d & 1]})
+    res = world.zone_job(zone, "next_run_ticking", [{k: c[k] for k in c if k != "zone"} for c in cases])
+    sm = lambda c: int(c["start"][:2]) * 60 + int(c["start"][3:])
+    a = lib.run_model([lib.req("next_run_spec", r["facts_before"][1], r["facts_before"][2], sm(c), c["start"], c["days"]) for c, r in zip(cases, res)])
+    b = lib.run_model([lib.req("next_run_spec", r["facts_after"][1], r["facts_after"][2], sm(c), c["start"], c["days"]) for c, r in zip(cases, res)])
+    io = [("ok " + r["text"]) if r["text"] != "raised" else "raised" for r in res]
+    ex = [i if i in (x, y) else "%s   (or, if midnight had passed: %s)" % (x, y) for i, x, y in zip(io, a, b)]
+    lib.differential(out, "clock-running-across-midnight-during-the-call", cases, io, None, ex,
+                     lambda c: "zone %s, call started %.0f microseconds before local midnight %d: pretty_next_run(%r, days %s)" % (c["zone"], (c["midnight"] - c["now"]) * 1e6, c["midnight"], c["start"], c["days"]),
+                     nontrivial=lambda c: True, sample=lambda c: c, classify=lambda c, i: "ticking/" + c["zone"])
+
+
 def run(tier, rnd, out):
     zones = ["UTC", "Asia/Jerusalem", "America/Los_Angeles", "Pacific/Kiritimati"] if tier == "quick" else world.ZONES_QUICK + ["America/Los_Angeles", "Asia/Tokyo", "Europe/London"]
     for c in lib.load_corpus("C13"): run_zone(out, "corpus", c["zone"], [c])
     for zone in zones:
         cs = gen(rnd, zone, tier); run_zone(out, "weekday-set-minute-grid", zone, cs)
+        if zone in zones[:2]: run_ticking(out, rnd, zone, 300 if tier == "quick" else 3000)
         run_zone(out, "same-set-object-consulted-twice", zone, gen_reuse(rnd, [c for c in cs if len(c["days"]) >= 2], 150 if tier == "quick" else 3000))
 
 
